@@ -353,11 +353,11 @@ pub fn property() -> Property {
         health: vec![("lim.computed_set_valid", "has-computed-mutations", 100)],
         subs: vec![
             enum_sub("lim.set_limits", set_items, oracle_set).shards(16),
-            prop_sub("lim.set_random", 400, 20_000, |_| set_random(), oracle_set),
+            prop_sub("lim.set_random", 1_600, 20_000, |_| set_random(), oracle_set),
             enum_sub("lim.predicate_contract_limits", pred_items, oracle_pred),
             prop_sub(
                 "lim.computed_set_valid",
-                20_000,
+                80_000,
                 800_000,
                 |_| {
                     graph_case(GraphCfg {
